@@ -104,7 +104,11 @@ def load(units=None, quiet=False):
     _prune_cache(key)
     db = DB(paths)
     info = {"units": units, "cache_key": key, "extract_wall_s": round(time.time() - t0, 2),
-            "repo": REPO, "functions": db.n_functions()}
+            "repo": REPO, "functions": db.n_functions(),
+            # normalisations applied to the serialised program before any rule looked at it
+            "renamed_members_mapped_back": sorted({r for u in db.units.values() for r in u.renames}),
+            "canonicalised_loops": sorted({"%s %s at %s" % (k, bn.split("::")[-1], loc)
+                                           for u in db.units.values() for (bn, k, loc) in u.canon})}
     if not quiet:
         sys.stderr.write("[fsverif] SIR: %d units, %d functions (%.1fs, key %s)\n"
                          % (len(units), db.n_functions(), info["extract_wall_s"], key))
